@@ -130,6 +130,9 @@ pub(crate) fn validate(input: &DataType) -> Result<()> {
                     if let GhostIdent::Destruction(_) = &ghost_data.ghost_ident {
                         errors.insert("Variant-level #[ghosts(...)] should name a member of the other type's variant, not a pattern.".into(), v.ident.span());
                     }
+                    if ghost_data.child_path.is_some() {
+                        errors.insert("Variant-level #[ghosts(...)] cannot address a nested struct ('path@name'): #[child_parents(...)] is only available for structs.".into(), v.ident.span());
+                    }
                 }
 
                 validate_dedicated_member_attrs(&member_attrs.lit_attrs, |x| x.container_ty.as_ref(), Some("literal"), member_span, &type_paths, &mut errors);
